@@ -130,12 +130,13 @@ def compare_direction(fi, defs, ret_value, candidate_names):
 def run(model, rep):
     rep.explanation = ('Only gates and candidate selection are structural: (K1) the three dispatchers on Constant.value are abstractly evaluated on exemplar values of '
                        'every type and must classify identically and by type (a numeric literal treated as True/False becomes a hoisting candidate whose alias costs '
-                       'more than it saves); (GATE) binding.rename() in the name-assignment loop runs only under the should_rename fact, and the local helper returns '
-                       'True only on profitability or when the original name is taken; (DIR) in each profitability comparison the side containing the candidate is the '
-                       'smaller-or-equal side, the fold is kept only when strictly shorter; (SORT) bindings are processed by descending new-mention count. '
+                       'more than it saves); (GATE) the name-assignment loop is abstractly evaluated on 48 scenarios (prefix switch x profitability x availability of the original name x '
+                       'binding kind): rename(name) happens exactly when should_rename(that name) holds or the original name was given away, otherwise the binding is '
+                       'pinned; (DIR) in each profitability comparison the side containing the candidate is the smaller-or-equal side; (FOLD) the folding transform and '
+                       'the printer are run abstractly on literal arithmetic (shared with C07) and a fold is kept only where the printed text gets strictly shorter; (SORT) bindings are processed by descending new-mention count. '
                        'Not decided: aggregate accuracy of the cost model over real modules.')
     for r, t in [('C17.K1', 'constant-kind classifiers agree and classify by type'), ('C17.GATE', 'rename only under should_rename'),
-                 ('C17.DIR', 'profitability comparisons point the right way'), ('C17.SORT', 'bindings sorted by descending mention count')]:
+                 ('C17.DIR', 'profitability comparisons point the right way'), ('C17.FOLD', 'folds are kept only where the printed text gets strictly shorter (enumerated)'), ('C17.SORT', 'bindings sorted by descending mention count')]:
         rep.rule(r, t)
     check_classifiers(model, rep, 'C17', 'C17.K1')
     rep.floor('C17.K1', 3)
@@ -185,23 +186,10 @@ def run(model, rep):
                 'new_mention_count()' in e_rc and 'old_mention_count()' in e_rc and 'additional_byte_cost()' in e_rc and 'len(new_name)' in e_rc
             rep.check(ok, 'C17.DIR', fi.loc(), 'NameBinding cost terms', 'current = refs*len(name); candidate = old*len(name) + new*len(new_name) + extra',
                       'cost model lost a term: current=%s candidate=%s' % (src(cur), e_rc), key='C17.DIR|NameBinding|terms')
-    fold = model.func('python_minifier.transforms.constant_folding.FoldConstants.visit_BinOp')
-    FF = Facts(fold.node)
-    fdefs = local_defs(fold.node)
-    for (ret, facts) in FF.returns:
-        if isinstance(ret.value, ast.Name) and ret.value.id == fold.positional[0]:
-            continue
-        lt = implies_le(facts, 'len(folded_expression)', 'len(original_expression)')
-        if lt is None:
-            # find any len(x) < len(y) fact where x is printed from the replacement
-            for (k, p) in facts or ():
-                if 'len(' in k and not k.startswith('<'):
-                    t = ast.parse(k, mode='eval').body
-                    if isinstance(t, ast.Compare):
-                        a, b = src(t.left), src(t.comparators[0])
-                        lt = implies_le(facts, a, b) or implies_le(facts, b, a)
-        rep.check(lt == 'lt', 'C17.DIR', fold.loc(ret), 'fold: return ' + src(ret.value)[:50], 'kept only when strictly shorter', 'a fold that is not strictly shorter can be kept', key='C17.DIR|fold')
-    rep.floor('C17.DIR', 4)
+    # a fold is kept only where the text gets strictly shorter: decided by running the transform and the printer abstractly (shared with C07)
+    from .c07 import enum as fold_enum
+    fold_enum(model, rep, rule='C17.FOLD', only_length=True)
+    rep.floor('C17.DIR', 3)
 
     # ---------------- SORT
     sb = model.func('python_minifier.rename.renamer.sorted_bindings')
